@@ -16,6 +16,8 @@ Step == CASE e.op = "@" -> Restart
           [] e.op = "use" -> Use(e.a[1])
           [] e.op = "null" -> Null
           [] e.op = "add" -> Add(Drop(e.a, 1))
+          \* the source of an add may be the buffer's own filled region (harness: off = a mod (used + 1), n = b mod (used - off + 1))
+          [] e.op = "addself" -> LET off == e.a[1] % (Used + 1) n == e.a[2] % (Used - off + 1) IN Add(SubSeq(filled, off + 1, off + n))
           [] e.op = "consume" -> Consume(e.a[1])
           [] e.op = "consume_at_most" -> ConsumeAtMost(e.a[1])
           \* bigadd u n: a stateless probe on a buffer of 4 GiB + 16 octets holding u: adding n octets succeeds, exactly n are added and
